@@ -11,14 +11,26 @@ CHECKS = {
          "Every legal history up to the depth bound, every version pair along it, every small-scope value, at top level and embedded (v0 outer, evolved outer, Vec): the reader's result equals expected(H,w,r,v) (value or the specific error naming the field) and sibling data is intact. Derived types to depth 2/3, dynamic driver over the real AdtSerializer/AdtDeserializer to depth 3/4."),
  "C04": ("model_checking", "6 C04", "byte-for-byte comparison of every encoding of the universe with an independent reference encoder anchored to the Scala golden file; decode of every alternative legal form",
          "For every (type, value) of the universes the library's bytes equal the reference encoder's, and every assignment of alternative legal forms (unknown-size sequences, re-plain dedup strings) decodes to the denoted value. The model itself reproduces the 242 540 Scala golden bytes exactly (refmodel/tests/golden.rs)."),
+ "C05": ("model_checking", "6 C05", "exhaustive enumeration of short byte strings over a format alphabet and over all byte values, and of all 1-point (thorough: 2-point) tamperings / framing rewrites / splices of valid encodings, per target type and build profile, under panic, watchdog and allocation monitors",
+         "For every table row (941 type expressions + 891 declarations quick) every byte string over the 12-byte alphabet up to length 4/5 (5/7 for the deep set), every byte string over all 256 values up to length 2 (3), and every tampering of every valid encoding decodes to Ok or Err - no unwind, no abort (child process), no hang (watchdog), no single allocation request above max(64 KiB, 16 x input length) - in an overflow-checked and in a plain release build. Containers of zero-width elements are the recorded known finding."),
+ "C06": ("model_checking", "6 C06", "same executions as C05; whenever the library accepts an input the strict reference decoder (leniencies of DESIGN 4.5 only) must assign it the same value",
+         "Sandwich of the accepted language: every input of the C05 sweeps that the library decodes to Ok(v) is decoded to the same v by the strict reference decoder (37 M accepted inputs in the quick tier); together with C04-backward this bounds the decoder from both sides."),
  "C07": ("model_checking", "6 C07", "exhaustive enumeration of (type, value, suffix) and (history, w, r, value, suffix): decode from a DeserializationContext, then observe the unread bytes",
          "For every value of the universes and 8 suffixes, decoding consumes exactly the encoding; for evolved records under every writer/reader pair with stored version >= 1 (and version 0 without removals)."),
  "C08": ("fault_enumeration", "6 C08", "enumeration of every cut point of every encoding of the universes (crash-point enumeration of a torn write)",
          "Every strict prefix of every encoding (all cut points up to 600 bytes, boundary-heavy subset beyond) is rejected with Err; evolved records also under every other definition of their history when the stored version is >= 1."),
+ "C11": ("model_checking", "6 C11", "exhaustive enumeration of all 2^32 unsigned and all 2^32 signed values against a reference formula (no bound)",
+         "Quick: all 2^33 values through Vec<u8> -> SliceInput plus a structured boundary subset through the other 16 combinations; thorough: all 2^33 values through all 18 (signedness, sink, source) combinations. Exhaustive outright in the thorough tier."),
+ "C12": ("model_checking", "6 C12", "exhaustive enumeration of element lists x source containers x target containers x size forms, decode followed by a sentinel",
+         "All lists of length <= 3 over 5 element types, every source (incl. slices and reference-built unknown-size streams) read as every target container; maps and byte containers pairwise."),
  "C13": ("model_checking", "6 C13", "exhaustive enumeration of enum declarations with one-variant extensions x values x constructor indices, compiled and through the dynamic driver",
          "All enums with <= 3 variants over 7 variant kinds, sorted and unsorted, each with its extensions: old data keeps its meaning under the extension, new-variant data and every unknown / transient index is Err (never an unwind), leading bytes are 00 varu(index)."),
  "C14": ("model_checking", "6 C14", "exhaustive enumeration of declarations with transient fields / constructors x values; histories ending in FieldMadeTransient",
          "Transient fields never change the bytes and decode to their declared default (defaults differ from every enumerated value); transient constructors give the dedicated error through every sink; every history prefix ending in FieldMadeTransient stays encodable."),
+ "C16": ("fault_enumeration", "6 C16", "enumeration of contents x levels x sinks x sources, frames parsed independently and inflated by Python zlib; per frame every truncation, every single-bit flip and boundary rewrites of both header fields",
+         "Round trip and true framing for the whole corpus at every compression level; raw DEFLATE streams inflate identically under Python's zlib; every truncation is Err; every bit flip / header rewrite is Ok or Err without unwinding and without an allocation request out of proportion."),
+ "C17": ("model_checking", "6 C17", "exhaustive enumeration of all Unicode scalar values, boundary lengths on zero-width containers and exact-size iterators, metadata naming unknown fields, and every value of the universe",
+         "Every encode returns Ok or the documented Err variant (UnsupportedCharacter with the character, LengthTooLarge at and above 2^31, SerializingTransientConstructor, UnknownFieldReferenceInEvolutionStep); no unwind anywhere in the enumerated space."),
  "C15": ("model_checking", "6 C15", "exhaustive enumeration of (type, value) x six sinks on the same instance; op-sequence exploration on the three sources",
          "Bytes through Vec, BytesMut, serialize_to_bytes, serialize_to_byte_vec and a recording user output are identical and SizeCalculator equals their length, for every value of the universes."),
 }
